@@ -54,7 +54,7 @@ pub(crate) fn data_type(s: Span) -> IResult<Span, DataType> {
             DataType::ClassType(Box::new(x))
         }),
         data_type_type,
-        map(keyword("event"), |x| DataType::Chandle(Box::new(x))),
+        map(keyword("event"), |x| DataType::Event(Box::new(x))),
         map(ps_covergroup_identifier, |x| {
             DataType::PsCovergroupIdentifier(Box::new(x))
         }),
